@@ -21,6 +21,7 @@ Qed.
 Lemma hinv_set_queue : forall D h h',
   hinv D h -> wins h' = wins h -> nextw h' = nextw h -> r_drag (rx h') = r_drag (rx h) ->
   (forall q, findq h' q <> None -> (q < nextq h')%positive) ->
+  (forall q cq, findq h' q = Some cq -> is_restack (q_change cq) = true) ->
   (exists ql, qchain h' (r_queue (rx h')) ql /\
      (forall q, In q ql <-> findq h' q <> None) /\
      (forall q cq, findq h' q = Some cq ->
@@ -28,9 +29,9 @@ Lemma hinv_set_queue : forall D h h',
                        findw h x = Some cx /\ w_parent cx = Some p /\ anc h x root)) ->
   hinv D h'.
 Proof.
-  intros D h h' HI Hw Hnw Hd Hnq Hq.
+  intros D h h' HI Hw Hnw Hd Hnq Hqk Hq.
   assert (Fw : forall a, findw h' a = findw h a) by (intro; unfold findw; rewrite Hw; reflexivity).
-  destruct HI as [K P PL O F R C I RP Q Dg NW NWR NQ].
+  destruct HI as [K P PL O F R C I RP Q QK Dg NW NWR NQ].
   constructor.
   - intros a c Hf. rewrite Fw in Hf. destruct (K a c Hf) as [l [Hc Hl]]. exists l. split.
     + eapply chain_same_wins; eauto.
@@ -46,6 +47,7 @@ Proof.
   - destruct Hq as [ql [Hq1 [Hq2 Hq3]]]. exists ql. split; auto. split; auto.
     intros q cq Hfq. destruct (Hq3 q cq Hfq) as [x [p [cx [H1 [H2 [H3 [H4 H5]]]]]]].
     exists x, p, cx. rewrite Fw. repeat split; auto. eapply anc_same_wins; eauto.
+  - exact Hqk.
   - rewrite Hd. exact Dg.
   - intros a Ha. rewrite Fw in Ha. rewrite Hnw. auto.
   - rewrite Hnw. exact NWR.
@@ -107,7 +109,7 @@ Lemma hinv_qunlink : forall D h kept q rest c sl,
   qchain (qunlink h sl q (q_next c)) (r_queue (rx (qunlink h sl q (q_next c)))) (kept ++ rest) /\
   wins (qunlink h sl q (q_next c)) = wins h /\
   (forall a ca, findq (qunlink h sl q (q_next c)) a = Some ca ->
-     exists ca0, findq h a = Some ca0 /\ q_win ca = q_win ca0 /\ q_parent ca = q_parent ca0) /\
+     exists ca0, findq h a = Some ca0 /\ q_win ca = q_win ca0 /\ q_parent ca = q_parent ca0 /\ q_change ca = q_change ca0) /\
   (forall a, In a kept -> exists ca ca0, findq (qunlink h sl q (q_next c)) a = Some ca /\ findq h a = Some ca0 /\ q_win ca = q_win ca0).
 Proof.
   intros D h kept q rest c sl HI Hc Hfq Hsl.
@@ -157,18 +159,19 @@ Proof.
         apply NoDup_remove_2 in Hnd. apply Hnd. destruct Ha as [Ha|Ha]; apply in_or_app; [left|right; right]; auto. }
   (* every request that is left was there before, with the same window and parent *)
   assert (Hold : forall a ca, findq h' a = Some ca ->
-                   exists ca0, findq h a = Some ca0 /\ q_win ca = q_win ca0 /\ q_parent ca = q_parent ca0).
+                   exists ca0, findq h a = Some ca0 /\ q_win ca = q_win ca0 /\ q_parent ca = q_parent ca0 /\ q_change ca = q_change ca0).
   { intros a ca Hfa. destruct (Pos.eq_dec a q) as [E|E]; [subst a; congruence|].
     destruct sl as [z|].
     - destruct (Pos.eq_dec a z) as [Ez|Ez].
       + subst a. destruct (Hq_z z eq_refl) as [cz [Hfz Hfz']]. rewrite Hfz' in Hfa. inversion Hfa; subst ca.
-        exists cz. auto.
-      + rewrite Hq_other in Hfa; auto; [eauto|]. intros z' Ez'. inversion Ez'; subst z'. exact Ez.
-    - rewrite Hq_other in Hfa; auto; [eauto|]. intros z' Ez'. discriminate. }
+        exists cz. auto 10.
+      + rewrite Hq_other in Hfa; auto; [eauto 10|]. intros z' Ez'. inversion Ez'; subst z'. exact Ez.
+    - rewrite Hq_other in Hfa; auto; [eauto 10|]. intros z' Ez'. discriminate. }
   split; [|split; [exact Hnewchain|split; [exact Hw|split; [exact Hold|]]]].
   - eapply hinv_set_queue; eauto.
     + intros a Ha. rewrite Hnq. apply (hi_nextq D h HI). destruct (findq h' a) as [ca|] eqn:Hfa; [|congruence].
       destruct (Hold a ca Hfa) as [ca0 [H0 _]]. congruence.
+    + intros a ca Hfa. destruct (Hold a ca Hfa) as [ca0 [H0 [_ [_ Ech]]]]. rewrite Ech. exact (hi_qkind D h HI a ca0 H0).
     + exists (kept ++ rest). split; [exact Hnewchain|]. split.
       * intro a. split.
         -- intro Hin. apply (qchain_live h' _ _ Hnewchain a Hin).
@@ -176,7 +179,7 @@ Proof.
            destruct (Hold a ca Hfa) as [ca0 [H0 _]].
            assert (Hin : In a (kept ++ q :: rest)) by (apply Hq2; congruence).
            apply in_app_or in Hin. apply in_or_app. destruct Hin as [Hin|[Hin|Hin]]; auto. subst a. congruence.
-      * intros a ca Hfa. destruct (Hold a ca Hfa) as [ca0 [H0 [H1 H2]]].
+      * intros a ca Hfa. destruct (Hold a ca Hfa) as [ca0 [H0 [H1 [H2 _]]]].
         destruct (Hq3 a ca0 H0) as [x [p [cx [G1 [G2 G3]]]]]. exists x, p, cx. rewrite H1, H2. auto.
   - intros a Ha. assert (Haq : a <> q) by (intro E; subst a; contradiction).
     pose proof (qchain_live h _ _ Hc a (in_or_app _ _ a (or_introl Ha))) as Hl.
